@@ -253,11 +253,15 @@ def read_wellformed(rd):
     return z3.Implies(rd.disc == bv(1), z3.And(ok, z3.Not(z3.And(s.disc == bv(2), t.disc == bv(2)))))
 
 
-def check_has_conflict(ctx, n_reads, n_keys):
+def check_has_conflict(ctx, n_reads, n_keys, n_ks=1):
+    """n_ks keyspace entries in the read table of `self` and in the write table of the other transaction, each with n_reads reads / n_keys keys;
+    ids symbolic (ascending within a table, as a BTreeMap iterates), each entry optional when n_ks > 1"""
     pat = r'^conflict_manager::<impl>::has_conflict$'
-    ob = ctx.ob(f'has-conflict/spec-{n_reads}r{n_keys}k', f'has_conflict agrees with ∃ read r, written key k (same keyspace): k ∈ r  ({n_reads} symbolic reads of any shape, {n_keys} written keys)', [pat])
+    tag = f'{n_reads}r{n_keys}k' + (f'-{n_ks}ks' if n_ks > 1 else '')
+    ob = ctx.ob(f'has-conflict/spec-{tag}', f'has_conflict agrees with ∃ read r, written key k (same keyspace): k ∈ r  ({n_ks} keyspace entr{"y" if n_ks == 1 else "ies"} per table with symbolic ids, '
+                f'{n_reads} symbolic reads of any shape and {n_keys} written keys per entry)', [pat])
     fn = ctx.prog.find(pat)
-    ex = ctx.executor(loop_bound=n_reads + n_keys + 2, max_depth=14, timeout_s=240)
+    ex = ctx.executor(loop_bound=n_reads + n_keys + n_ks + 2, max_depth=14, timeout_s=240)
     env = {}
 
     def mk_cm(ex_, st, name, reads_kv, keys_kv):
@@ -270,23 +274,34 @@ def check_has_conflict(ctx, n_reads, n_keys):
         return cm
 
     def setup(ex_, st, fr):
-        idr, idk = z3.BitVec('id_reads', 64), z3.BitVec('id_keys', 64)
-        rds = [mk_read_sym(ex_, st, f'r{i}') for i in range(n_reads)]
-        for r in rds:
-            st.pc.append(read_wellformed(r))
-        keys = [mk_key(f'k{i}') for i in range(n_keys)]
-        vec = mk_seq('Vec<conflict_manager::Read>', rds, 'reads_vec')
-        kset = mk_seq('BTreeSet<lsm_tree::Slice>', keys, 'keyset')
-        me = mk_cm(ex_, st, 'self_cm', [{'key': idr, 'present': z3.BoolVal(True), 'cell': Cell(vec)}], [])
-        other = mk_cm(ex_, st, 'other_cm', [], [{'key': idk, 'present': z3.BoolVal(True), 'cell': Cell(kset)}])
+        sfx = (lambda g: '' if n_ks == 1 else str(g))
+        idr = [z3.BitVec('id_reads' + sfx(g), 64) for g in range(n_ks)]
+        idk = [z3.BitVec('id_keys' + sfx(g), 64) for g in range(n_ks)]
+        pr = [z3.BoolVal(True) if n_ks == 1 else z3.Bool(f'has_reads{g}') for g in range(n_ks)]
+        pk = [z3.BoolVal(True) if n_ks == 1 else z3.Bool(f'has_keys{g}') for g in range(n_ks)]
+        for ids in (idr, idk):
+            for x, y in zip(ids, ids[1:]):
+                st.pc.append(z3.ULT(x, y))
+        rgroups, kgroups, rkv, kkv = [], [], [], []
+        for g in range(n_ks):
+            rds = [mk_read_sym(ex_, st, f'r{sfx(g) and sfx(g) + "_"}{i}') for i in range(n_reads)]
+            for r in rds:
+                st.pc.append(read_wellformed(r))
+            keys = [mk_key(f'k{sfx(g) and sfx(g) + "_"}{i}') for i in range(n_keys)]
+            rgroups.append(rds); kgroups.append(keys)
+            rkv.append({'key': idr[g], 'present': pr[g], 'cell': Cell(mk_seq('Vec<conflict_manager::Read>', rds, f'reads_vec{g}'))})
+            kkv.append({'key': idk[g], 'present': pk[g], 'cell': Cell(mk_seq('BTreeSet<lsm_tree::Slice>', keys, f'keyset{g}'))})
+        me = mk_cm(ex_, st, 'self_cm', rkv, [])
+        other = mk_cm(ex_, st, 'other_cm', [], kkv)
         fr.locals[fn.args[0]] = Cell(Ref(Cell(me))); fr.locals[fn.args[1]] = Cell(Ref(Cell(other)))
-        env.update(idr=idr, idk=idk, rds=rds, keys=keys)
+        env.update(idr=idr, idk=idk, pr=pr, pk=pk, rgroups=rgroups, kgroups=kgroups)
     paths = ex.run(fn, setup=setup)
     ctx.functions_encoded[fn.key] = ctx.prog.hashes.get(fn.name, '')
     ctx.paths_total += len(paths); ctx.events_total += sum(len(p.events) for p in paths)
     ctx.solver_s += ex.stats['solver_s']; ctx.queries += ex.stats['solver_calls']
-    spec = z3.And(env['idr'] == env['idk'],
-                  z3.Or(*[read_contains(r, k.data['ord']) for r in env['rds'] for k in env['keys']]) if env['keys'] else z3.BoolVal(False))
+    spec = z3.Or(*[z3.And(env['pr'][i], env['pk'][j], env['idr'][i] == env['idk'][j],
+                          z3.Or(*[read_contains(r, k.data['ord']) for r in env['rgroups'][i] for k in env['kgroups'][j]]) if env['kgroups'][j] else z3.BoolVal(False))
+                   for i in range(n_ks) for j in range(n_ks)])
     bad = None
     for p in paths:
         if p.status in ('error', 'timeout', 'loop_bound'):
@@ -304,7 +319,7 @@ def check_has_conflict(ctx, n_reads, n_keys):
         if r != z3.unsat:
             bad = (p, m, f'returns {z3.simplify(p.ret)} where the specification says {m.eval(spec) if m else "?"}'); break
     if bad is None and ob.reach:
-        ob.status = 'discharged'; ob.sample = {'paths': len(paths), 'reads': n_reads, 'keys': n_keys}
+        ob.status = 'discharged'; ob.sample = {'paths': len(paths), 'reads': n_reads, 'keys': n_keys, 'keyspace_entries': n_ks}
         return ob
     if bad is None:
         ob.status = 'undecided'; ob.detail = 'vacuous'
@@ -313,7 +328,7 @@ def check_has_conflict(ctx, n_reads, n_keys):
     desc = {}
     if m is not None:
         for d in m.decls():
-            if d.name().startswith(('rd:', 'bd:', 'ord:', 'id_')):
+            if d.name().startswith(('rd:', 'bd:', 'ord:', 'id_', 'has_')):
                 desc[d.name()] = str(m[d])
     role = 'ConflictManager.has_conflict/disagrees-with-specification'
     def confirm():
@@ -337,25 +352,42 @@ def native_has_conflict(ctx, m, env):
 
     def keyhex(v):
         return '6b%02x' % v      # 'k' + order byte: byte order = abstract order
-    L = ['dir $DIR/db', 'kind opt', 'open workers=0', 'ks a', 'ks b']
-    same = m.eval(env['idr'] == env['idk'], model_completion=True)
-    ks_r, ks_k = 'a', ('a' if z3.is_true(same) else 'b')
+
+    def ev_true(c):
+        return z3.is_true(m.eval(c, model_completion=True))
+    n_ks = len(env['idr'])
+    # keyspaces are created in ascending id order, so the real ids are ordered like the model's
+    idvals = sorted({m.eval(x, model_completion=True).as_long() for x in env['idr'] + env['idk']})
+    name_of = {v: 'abcdefgh'[i] for i, v in enumerate(idvals)}
+    L = ['dir $DIR/db', 'kind opt', 'open workers=0'] + [f'ks {name_of[v]}' for v in idvals]
     L += ['tx t1 begin']
-    expect = False
-    for r in env['rds']:
-        d = m.eval(r.disc, model_completion=True).as_long()
-        if d == 0:
-            L.append(f'tx t1 get {ks_r} {keyhex(ordv(r.data["single"]))}')
-        elif d == 2:
-            L.append(f'tx t1 iter {ks_r}')
-        else:
-            s, t = r.data['start'], r.data['end']
-            sd, td = m.eval(s.disc, model_completion=True).as_long(), m.eval(t.disc, model_completion=True).as_long()
-            L.append(f'tx t1 range_b {ks_r} {"ieu"[sd]} {keyhex(ordv(s.data["key"]))} {"ieu"[td]} {keyhex(ordv(t.data["key"]))}')
+    rlist, klist = [], []
+    for g in range(n_ks):
+        if not ev_true(env['pr'][g]):
+            continue
+        ks_r = name_of[m.eval(env['idr'][g], model_completion=True).as_long()]
+        for r in env['rgroups'][g]:
+            rlist.append((ks_r, r))
+            d = m.eval(r.disc, model_completion=True).as_long()
+            if d == 0:
+                L.append(f'tx t1 get {ks_r} {keyhex(ordv(r.data["single"]))}')
+            elif d == 2:
+                L.append(f'tx t1 iter {ks_r}')
+            else:
+                s, t = r.data['start'], r.data['end']
+                sd, td = m.eval(s.disc, model_completion=True).as_long(), m.eval(t.disc, model_completion=True).as_long()
+                L.append(f'tx t1 range_b {ks_r} {"ieu"[sd]} {keyhex(ordv(s.data["key"]))} {"ieu"[td]} {keyhex(ordv(t.data["key"]))}')
     L += ['tx t2 begin']
-    for k in env['keys']:
-        L.append(f'tx t2 insert {ks_k} {keyhex(ordv(k))} 77')
-    L += ['tx t2 commit', f'tx t1 insert {ks_r} 7a7a 7a', 'tx t1 commit', 'close']
+    for g in range(n_ks):
+        if not ev_true(env['pk'][g]):
+            continue
+        ks_k = name_of[m.eval(env['idk'][g], model_completion=True).as_long()]
+        for k in env['kgroups'][g]:
+            klist.append((ks_k, k))
+            L.append(f'tx t2 insert {ks_k} {keyhex(ordv(k))} 77')
+    spare = 'abcdefgh'[len(idvals)]
+    L.insert(3 + len(idvals), f'ks {spare}')
+    L += ['tx t2 commit', f'tx t1 insert {spare} 7a7a 7a', 'tx t1 commit', 'close']
     spath, out = ctx.run_scenario('\n'.join(L) + '\n', tag='hasconflict')
     rs = [r for _i, _c, r in out]
     if any(c == 'CRASH' for _i, c, _r in out):
@@ -364,12 +396,13 @@ def native_has_conflict(ctx, m, env):
         return False, spath, 'driver lacks range_b'
     lines = list(zip(L, rs))
     t1c = [r for l, r in lines if l == 'tx t1 commit']
-    spec_expect = None
-    # ground truth natively: does any written key fall into any read? (computed from the same concrete values)
+    # ground truth natively: does any written key fall into any read of the same keyspace? (computed from the same concrete values)
     hit = False
-    for r in env['rds']:
+    for ks_r, r in rlist:
         d = m.eval(r.disc, model_completion=True).as_long()
-        for k in env['keys']:
+        for ks_k, k in klist:
+            if ks_k != ks_r:
+                continue
             ko = ordv(k)
             if d == 0:
                 hit |= ko == ordv(r.data['single'])
@@ -381,7 +414,6 @@ def native_has_conflict(ctx, m, env):
                 lo_ok = sd == 2 or (sd == 0 and ko >= ordv(s.data['key'])) or (sd == 1 and ko > ordv(s.data['key']))
                 hi_ok = td == 2 or (td == 0 and ko <= ordv(t.data['key'])) or (td == 1 and ko < ordv(t.data['key']))
                 hit |= (lo_ok and hi_ok)
-    hit = hit and z3.is_true(same) and bool(env['keys'])
     got = t1c[0] if t1c else '?'
     if hit and got == 'ok':
         return True, spath, 't1 read a key/range that t2 wrote and committed; t1 then committed (must be Conflict)'
@@ -558,6 +590,8 @@ def check_with_commit(ctx):
                         problems['registers-after-apply'].append((p, 'commit is not registered under the visible seqno read after the apply'))
                     if not lock or not unlock or not (lock[0].idx < fcalls[0].idx < ins.idx < unlock[-1].idx):
                         problems['registers-after-apply'].append((p, 'validation, apply and registration are not inside one critical section of the oracle mutex'))
+                    elif len(lock) != 1 or any(lock[0].idx < u.idx < ins.idx for u in unlock):
+                        problems['registers-after-apply'].append((p, 'the oracle mutex is released between validation and registration: another transaction can validate before this commit is registered'))
             else:
                 if inserts:
                     problems['registers-after-apply'].append((p, 'a failed apply is registered'))
@@ -672,7 +706,30 @@ def native_commit_battery(ctx):
             if g and g[0] != 'some:32':
                 return True, spath, f'final state after serial commits is {g[0]}'
         last = (False, spath, 'held natively on 5 SSI histories')
-    return last
+    r = native_concurrent_commit(ctx)
+    return r if r[0] else last
+
+
+def native_concurrent_commit(ctx):
+    """write skew with the two commits overlapping: the first committer is parked inside its apply (at the journal lock), the second one commits meanwhile.
+    Serializability allows at most one of them to succeed."""
+    K1, K2 = '6b31', '6b32'
+    L = ['dir $DIR/db', 'kind opt', 'open workers=0', 'ks a', f'insert a {K1} 30', f'insert a {K2} 30',
+         'tx t1 begin', 'tx t2 begin', f'tx t1 get a {K1}', f'tx t2 get a {K2}', f'tx t1 insert a {K2} 31', f'tx t2 insert a {K1} 32',
+         'arm_pause journal.get_writer', 'tx t1 spawn_commit A', 'wait_parked journal.get_writer 5000', 'tx t2 spawn_commit_free B', 'sleep 400',
+         'release journal.get_writer', 'join A', 'join B', f'get a {K1}', f'get a {K2}', 'close']
+    spath, out = ctx.run_scenario('\n'.join(L) + '\n', tag='ssi-overlapping-commits')
+    rs = [r for _i, _c, r in out]
+    if any(c == 'CRASH' for _i, c, _r in out):
+        return True, spath, 'overlapping commits: crash ' + rs[-1][-200:]
+    lines = list(zip(L, rs))
+    parked = [r for l, r in lines if l.startswith('wait_parked')]
+    ja = [r for l, r in lines if l == 'join A']; jb = [r for l, r in lines if l == 'join B']
+    if not parked or parked[0] != 'ok':
+        return False, spath, f'the first committer did not reach the pause point ({parked})'
+    if ja and jb and ja[0].endswith('ok') and jb[0].endswith('ok'):
+        return True, spath, 'write skew: two transactions that each read what the other wrote both committed (the second validated while the first was between validation and registration)'
+    return False, spath, f'overlapping commits held natively (A: {ja}, B: {jb})'
 
 
 def run(ctx):
@@ -680,7 +737,7 @@ def run(ctx):
         'E2/E3 (lsm-tree reads at an instant), F4 (BTreeMap/BTreeSet as mathematical maps/sets; BTreeSet::range panics iff start > end or start == end both excluded)',
         'keys are compared through an abstract injective order (8-bit positions); byte-string clones and conversions keep identity',
         'commit path: the commit closure and has_conflict are opaque calls with symbolic results when checking with_commit; has_conflict is checked separately against its specification',
-        'bounds: ≤ 2 recorded reads × ≤ 2 written keys × 1 keyspace id pair; 2 registered commits in the oracle',
+        'bounds: ≤ 2 recorded reads × ≤ 2 written keys × 1 keyspace id pair, and 1 read × 1 key in each of 2 optional keyspace entries per table (ids symbolic); 2 registered commits in the oracle',
     ]
     for m in POINT_READS + SCAN_READS + RMW:
         check_read_tracked(ctx, m)
@@ -691,6 +748,10 @@ def run(ctx):
     shapes = [(1, 1), (1, 2), (2, 1)] if ctx.tier == 'quick' else [(1, 0), (1, 1), (1, 2), (2, 1), (2, 2)]
     for nr, nk in shapes:
         check_has_conflict(ctx, nr, nk)
+    # several keyspaces in both tables (a transaction that read in one keyspace and another that wrote in a different one, in either id order)
+    check_has_conflict(ctx, 1, 1, n_ks=2)
+    if ctx.tier != 'quick':
+        check_has_conflict(ctx, 2, 1, n_ks=2)
     check_mark_range(ctx)
     check_with_commit(ctx)
     check_helpers(ctx)
